@@ -128,6 +128,7 @@ func histories(nfiles int, allRestartMasks bool) []History {
 // EnumFileSets lists the file sets of a tier.
 func EnumFileSets(tier string) (sets []FileSet, rule string, snapshotCases int) {
 	thorough := tier == "thorough"
+	touching, overlapping := 0, 0
 	threeFileQuick := map[string]bool{"tcp4": true, "udp4": true, "reuse-slow": true, "tcp-idle": true, "udp-idle": true, "tcp+udp": true}
 	if thorough {
 		// snapshot sets first: they are the long-running items
@@ -211,6 +212,30 @@ func EnumFileSets(tier string) (sets []FileSet, rule string, snapshotCases int) 
 						continue
 					}
 					sets = append(sets, FileSet{Files: ref.Case{Set: set.Name, Interleave: il, Link: "eth", Cuts: []int{c1, c2}}, Hists: histories(3, thorough && threeFileQuick[set.Name])})
+					// the same with two of the files touching (equal timestamps across a cut)
+					for _, tieAt := range []int{c1, c2} {
+						fc := ref.Case{Set: set.Name, Interleave: il, Link: "eth", Cuts: []int{c1, c2}, Devs: []ref.Dev{{Kind: "tie", I: tieAt - 1}}}
+						if _, err := ref.Build(fc); err != nil {
+							continue // tie across an idle gap
+						}
+						sets = append(sets, FileSet{Files: fc, Hists: histories(3, false)})
+						touching++
+					}
+				}
+			}
+			// two sensors: captures that overlap in time (packets of the first k alternate between two
+			// files), the rest in a third file
+			for _, kind := range []string{"ovl", "ovlp"} {
+				for k := 2; k < n; k++ {
+					if !thorough && k%2 == 1 && k != n-1 {
+						continue
+					}
+					fc := ref.Case{Set: set.Name, Interleave: il, Link: "eth", Assign: fmt.Sprintf("%s:%d", kind, k)}
+					if _, err := ref.Build(fc); err != nil {
+						continue
+					}
+					sets = append(sets, FileSet{Files: fc, Hists: histories(3, false)})
+					overlapping++
 				}
 			}
 		}
@@ -233,6 +258,7 @@ func EnumFileSets(tier string) (sets []FileSet, rule string, snapshotCases int) 
 	}
 	rule = "file sets: every conversation set of the menu (default rendering; default interleaving in quick, every permitted interleaving in thorough) cut into two files at every position, " +
 		"plain and with equal timestamps on both sides of the cut; cut into three files (quick: sets tcp4, udp4, tcp+udp, reuse-slow, tcp-idle, udp-idle at every third position pair; thorough: every set, every position pair, default interleaving); " +
+		fmt.Sprintf("every three-file cut also with two of the files touching (equal timestamps across the first or the second cut; %d sets) and, instead of cuts, two overlapping captures (the first k packets alternate singly or in pairs between two files, the rest in a third; %d sets); ", touching, overlapping) +
 		"thorough also every rendering with one deviation cut between the two affected packets. histories: every ordered set partition of the files into batches " +
 		"(= every batching x every arrival order) x builder restart between batches (two files: every subset of gaps; three files: none/all, thorough every subset for the six quick sets). " +
 		"After every batch the visible set is compared with the one-call import of the same subset of files. " +
